@@ -7,9 +7,18 @@
 //   rst                                   reset()
 //   hash <seed> <len>                     static Sha256::hash()
 //   hmac <kseed> <klen> <seed> <len>      static Sha256::hmac()
+//   poke <l3> <l2> <l1> <l0>              long-message mode by state injection: the byte counter is set to the value
+//                                         with these 16-bit limbs (a multiple of 64, nothing buffered), the chaining
+//                                         value stays what it is; counter and chaining value are logged
+//   zeros <mib>                           long-message mode for real: <mib> MiB of zero bytes through update() in 1 MiB
+//                                         pieces; the counter and chaining value reached are logged
+// (after poke/zeros the trace specification continues the message from the logged chaining value: padding and the
+// 64-bit length field for byte counts that a model checker cannot hash its way to)
 // Every input range handed to the library is an exact-size heap block (ASan sees over-reads).
 #include "drv.h"
+#define private public
 #include <nstd/Crypto/Sha256.hpp>
+#undef private
 
 static Sha256* H = 0;
 
@@ -29,6 +38,16 @@ static void j_digest(const byte (&d)[Sha256::digestSize])
 {
   j_arr_begin("d");
   for(int i = 0; i < 16; ++i) j_arr_int((long long)d[2 * i] * 256 + d[2 * i + 1]);
+  j_arr_end();
+}
+
+static void j_mid(Sha256* h)
+{
+  j_arr_begin("cnt");
+  for(int i = 3; i >= 0; --i) j_arr_int((long long)((h->count >> (16 * i)) & 0xffff));
+  j_arr_end();
+  j_arr_begin("S");
+  for(int i = 0; i < 8; ++i) { j_arr_int((long long)(h->state[i] >> 16)); j_arr_int((long long)(h->state[i] & 0xffff)); }
   j_arr_end();
 }
 
@@ -59,6 +78,21 @@ void drv_apply(const char* op)
   {
     H->reset();
     j_begin(op); j_end();
+  }
+  else if(!strcmp(op, "poke"))
+  {
+    unsigned long long c = 0;
+    for(int i = 0; i < 4; ++i) c = (c << 16) | (unsigned long long)(tok_int() & 0xffff);
+    H->count = c;
+    j_begin(op); j_mid(H); j_end();
+  }
+  else if(!strcmp(op, "zeros"))
+  {
+    long mib = tok_int();
+    unsigned char* z = (unsigned char*)calloc(1 << 20, 1);
+    for(long i = 0; i < mib; ++i) H->update(z, 1 << 20);
+    free(z);
+    j_begin(op); j_int("mib", mib); j_mid(H); j_end();
   }
   else if(!strcmp(op, "hash"))
   {
